@@ -155,8 +155,17 @@ def analyse(unit, g, vr):
                'props_override': None, 'where': None, 'id': None, 'repo_loc': None}
         p0 = prim[0] if prim else (spans[0] if spans else None)
         o = origin(p0['line_start']) if p0 else {'k': 'blank'}
-        if kind in ('ensures', 'invariant', 'decreases') and o.get('k') == 'ins':
-            lab, cl, where = locate_clause(o, (p0.get('column_start') or 1) - 1)
+        # the failed clause may be the primary span (postcondition) or a secondary one (loop invariant at a break)
+        clause_span = None
+        if kind in ('ensures', 'invariant', 'decreases'):
+            for sp in ([p0] if p0 else []) + sec:
+                so = origin(sp['line_start'])
+                if so.get('k') == 'ins' and re.match(r'(sig|loop\d+):', str(so.get('id', ''))):
+                    clause_span = (sp, so)
+                    break
+        if clause_span is not None:
+            p0c, o = clause_span
+            lab, cl, where = locate_clause(o, (p0c.get('column_start') or 1) - 1)
             rec['fn'] = lab
             if cl:
                 rec['clause'] = cl['text']
@@ -166,7 +175,7 @@ def analyse(unit, g, vr):
             else:
                 rec['id'] = '%s.%s' % (lab, kind)
             # where in the body did it fail
-            for s in sec:
+            for s in ([p0] if p0 else []) + sec:
                 so = origin(s['line_start'])
                 if so.get('k') == 'src':
                     rec['repo_loc'] = '%s:%d' % (so['file'], so['line'])
